@@ -203,6 +203,11 @@ def run(ctx):
     ctx.rule("C07.f", "MID$ returns a slice of its argument that starts at the requested position, "
              "or the empty string: the argument string itself is never handed back unsliced (a "
              "start position past the end yields \"\", not the whole string)")
+    ctx.rule("C07.i", "a refused MID$ assignment leaves its target alone: the validation error of "
+             "Runtime::letmid (position 0) is raised when the position, length and replacement "
+             "have been taken off the stack and the target string has not - the store opcode that "
+             "follows (executed if the program is continued) then writes the target's own value")
+    rule_i(ctx, cr)
     ctx.rule("C07.g", "a signed BASIC number becomes an unsigned count/position only under a sign "
              "test of the same value (>= 0 true / < 0 false), so a negative argument is an error "
              "and not a huge position; the compiler-emitted counts are the reviewed exceptions")
@@ -335,6 +340,27 @@ def rule_e(ctx, cr):
         ctx.check(ok, "C07.e", "%s/position-zero" % path, f.span,
                   "position 0 is rejected with an error",
                   "position 0 is no longer rejected in %s" % path.rsplit("::", 1)[-1])
+
+
+def rule_i(ctx, cr):
+    f = cr.need_fn("mach::runtime::Runtime::letmid")
+    ctx.touch(f)
+    pops = [c for c in f.calls() if re.search(r"Stack<T>::pop$", c.name)]
+    errs = [(b, code, sp) for b, code, sp in f.error_codes()]
+    if not (len(pops) == 4 and errs):
+        ctx.notes.append("C07.i not decided: letmid no longer takes its four operands with four "
+                         "pop() calls plus an explicit validation error (%d pops, %d errors)"
+                         % (len(pops), len(errs)))
+        return
+    for n, (b, code, sp) in enumerate(errs, 1):
+        dom = [c for c in pops if f.dominates(c.bb, b) and c.bb != b]
+        ctx.check(len(dom) == 3, "C07.i", "letmid/error#%d/leaves-target" % n, sp,
+                  "%s is raised after 3 of the 4 pops: the target string is still on the stack"
+                  % code,
+                  "%s is raised after %d of the 4 operand pops: the entry left on top of the "
+                  "stack is not the target string, and the store that follows (CONT after the "
+                  "error) assigns it - a refused MID$ assignment replaces the whole target"
+                  % (code, len(dom)))
 
 
 def rule_f(ctx, cr):
